@@ -2309,6 +2309,13 @@ XPathProcessorImpl::LocationPath()
 void
 XPathProcessorImpl::RelativeLocationPath()
 {
+    // Step() lets a right parenthesis pass, but a relative location
+    // path starts with a step ("(a)[1]/)", "$v/)").
+    if (tokenIs(XalanUnicode::charRightParenthesis) == true)
+    {
+        error(XalanMessages::ExpectedNodeTest);
+    }
+
     Step();
 
     while(tokenIs(XalanUnicode::charSolidus) == true)
